@@ -539,3 +539,217 @@ class NotifyStep(Harness):
 
 
 register(NotifyStep())
+
+
+class BuildAssignmentStep(Harness):
+    """One call of scheduler.assign.build_assignment for a consumer placed on a host that lacks its input, with the input spread
+    over three other hosts in any mix of 'available' (the copy is there) and 'preparing' (a transfer to that host is still in
+    flight): the transfer it plans must name a source that holds the dataset now."""
+
+    name = "build-assignment-step"
+    engine = "E1-crosshair"
+    properties = ("C04", "C02")
+    rule = "one path = (status of the dataset on each of three hosts, in the order the copies were requested; target worker); non-trivial = a host that is still receiving the dataset precedes one that has it"
+    assumptions = ["state built by the real initialize() for a producer and a consumer on four hosts; dataset statuses set as notify / plan record them"]
+    outside = []
+
+    def shards(self, tier):
+        return [{}]
+
+    def budget(self, tier):
+        return 60.0
+
+    def bounds(self, tier):
+        return {"hosts": 4, "replica_statuses": "available / preparing per host, at least one available"}
+
+    def functions(self):
+        return [s_assign.build_assignment]
+
+    def body(self, ch, params):
+        from cascade.scheduler.core import DatasetStatus
+
+        with ch.untraced():
+            FALSY["on"] = False
+            job, spec = build_job(ch, 2, [0, 0], False, {(0, 1): 1}, with_ext=False)
+            sim = sim_cluster.SimCluster(job, [[0], [0], [0], [0]], ch, 0, set(), ch.untraced)
+            state = s_api.initialize(sim.env, s_graph.precompute(job), set())
+            ds = DatasetId("t0", "0")
+            hosts = ["h0", "h1", "h2"]
+            order = ch.choose(list(itertools.permutations(hosts)), "request_order")  # the order in which the copies came into being
+            sts = [ch.choose([DatasetStatus.available, DatasetStatus.preparing], f"status_{h}") for h in order]
+            ch.assume(any(s == DatasetStatus.available for s in sts))
+            for h, st in zip(order, sts):
+                state.host2ds[h][ds] = st
+                state.ds2host[ds][h] = st
+            target = [w for w in sorted(sim.workers, key=repr) if w.host == "h3"][0]
+            try:
+                a = s_assign.build_assignment(target, "t1", state)
+            except Exception as e:
+                raise Violation(f"build_assignment-raised-{type(e).__name__}", str(e)[:200])
+            ch.note("case", {"order": list(order), "statuses": [s.name for s in sts]})
+            first_av = [i for i, s in enumerate(sts) if s == DatasetStatus.available][0]
+            ch.note("nontrivial", first_av > 0)
+            preps = [(d, h) for d, h in a.prep if d == ds]
+            if len(preps) != 1:
+                raise Violation("remote-input-not-planned-once", f"{a.prep}")
+            src = preps[0][1]
+            holds = {h for h, s in zip(order, sts) if s == DatasetStatus.available}
+            if src not in holds:
+                raise Violation("transfer-planned-from-a-host-that-does-not-hold-the-dataset", f"copies {dict(zip(order, [s.name for s in sts]))}: source {src}")
+            if a.tasks != ["t1"] or a.worker != target:
+                raise Violation("assignment-differs", repr(a))
+
+
+register(BuildAssignmentStep())
+
+
+class FetchStep(Harness):
+    """notify + flush_queues on the notices about one requested output that also travels to a second host: it is fetched exactly
+    once whatever its value is (0, '', False, None-like values included) and in whatever order payload and replica notice come."""
+
+    name = "fetch-step"
+    engine = "E1-crosshair"
+    properties = ("C04", "C01")
+    rule = "one path = (value of the requested output from a palette incl. falsy values, order of {payload delivered, replica announced on the other host, unrelated round}); non-trivial = the value is falsy and the replica is announced after the delivery"
+    assumptions = ["state built by the real initialize / assign / plan for a producer whose output is requested and consumed on two hosts; the bridge is a recorder"]
+    outside = []
+    VALUES = [0, "", False, [], 0.0, 7, "x"]
+
+    def shards(self, tier):
+        return [{"value": i} for i in range(len(self.VALUES))]
+
+    def budget(self, tier):
+        return 60.0
+
+    def bounds(self, tier):
+        return {"values": [repr(v) for v in self.VALUES], "notices": "publication, then payload / replica notice / idle round in any order"}
+
+    def functions(self):
+        return [c_notify.notify, c_notify.consider_fetch, c_notify.consider_purge, c_act.flush_queues]
+
+    def body(self, ch, params):
+        import cascade.executor.serde as serde
+        from cascade.controller.report import Reporter
+        from cascade.executor.msg import DatasetPublished, DatasetTransmitPayload, DatasetTransmitPayloadHeader
+
+        with ch.untraced():
+            FALSY["on"] = False
+            # t0 -> t1, t0 -> t2 ; t0.0 is also requested by the caller
+            job, spec = build_job(ch, 3, [0, 0, 0], False, {(0, 1): 1, (0, 2): 1, (1, 2): 0}, with_ext=False)
+            ds = DatasetId("t0", "0")
+            job = job.model_copy(update={"ext_outputs": [ds]})
+            sim = sim_cluster.SimCluster(job, HOST_SHAPES["2x1"], ch, 0, set(), ch.untraced)
+            state = s_api.initialize(sim.env, s_graph.precompute(job), {ds})
+            calls = []
+
+            class Rec:
+                def fetch(self, d, host):
+                    calls.append(("fetch", d, host))
+
+                def purge(self, host, d):
+                    calls.append(("purge", d, host))
+
+            assignments = list(s_api.assign(state, job, sim.env))
+            state = s_api.plan(state, assignments)
+            w0 = next(a.worker for a in assignments if "t0" in a.tasks)
+            other = [h for h in sim.stores if h != w0.host][0]
+            rep = Reporter(None)
+            value = self.VALUES[params["value"]]
+            raw, deser_fun = serde.ser_output(value, "Any")
+            state = c_notify.notify(state, job, [DatasetPublished(origin=w0, ds=ds, transmit_idx=None)], rep)
+            state = c_act.flush_queues(Rec(), state)
+            todo = ["payload", "replica", "idle"]
+            log = []
+            delivered_before_replica = False
+            while todo:
+                ev = todo.pop(ch.pick(len(todo), f"ev{len(log)}"))
+                log.append(ev)
+                if ev == "payload":
+                    hdr = DatasetTransmitPayloadHeader(confirm_address="x", confirm_idx=0, ds=ds, deser_fun=deser_fun)
+                    state = c_notify.notify(state, job, [DatasetTransmitPayload(header=hdr, value=bytes(raw))], rep)
+                    delivered_before_replica = "replica" in todo
+                elif ev == "replica":
+                    state = c_notify.notify(state, job, [DatasetPublished(origin=other, ds=ds, transmit_idx=5)], rep)
+                state = c_act.flush_queues(Rec(), state)
+            ch.note("case", {"value": repr(value), "order": log})
+            ch.note("nontrivial", (not value) and delivered_before_replica)
+            fetches = [c for c in calls if c[0] == "fetch" and c[1] == ds]
+            if len(fetches) != 1:
+                raise Violation("requested-output-fetched-wrong-number-of-times", f"value {value!r}, order {log}: {len(fetches)} fetches")
+            if state.outputs.get(ds, "missing") != value or type(state.outputs.get(ds)) is not type(value):
+                raise Violation("delivered-value-differs", f"{state.outputs.get(ds)!r} vs {value!r}")
+            if any(c[0] == "purge" and c[1] == ds for c in calls):
+                raise Violation("purge-while-still-needed", f"{ds} purged although its consumers have not run (order {log})")
+
+
+register(FetchStep())
+
+
+class MigrateStep(Harness):
+    """scheduler.assign.migrate_to_component from states the real controller functions produce: a host that has run out of work may
+    be moved into any component at any time -- also into one whose tasks have already been handed to workers -- without the
+    bookkeeping raising, and afterwards it knows a distance for every task the component still tracks."""
+
+    name = "migrate-step"
+    engine = "E1-crosshair"
+    properties = ("C03",)
+    rule = "one path = (cluster shape, which worker reported the producer's output, rounds played before the migration, migrating host); non-trivial = the component already has an assigned task when the host arrives"
+    assumptions = ["state built by the real initialize / assign / plan / notify for a producer with two consumers next to an isolated task"]
+    outside = []
+
+    def shards(self, tier):
+        return [{"hosts": h, "rounds": r} for h in ("2x1", "2x2", "1x2") for r in (1, 2, 3)]
+
+    def budget(self, tier):
+        return 60.0
+
+    def bounds(self, tier):
+        return {"hosts": ["2x1", "2x2", "1x2"], "rounds_before_migration": "1..3", "job": "t0 -> t1, t0 -> t2 and an isolated task t3"}
+
+    def functions(self):
+        return [s_assign.migrate_to_component, s_assign.update_worker2task_distance, s_assign.set_worker2task_overhead, s_api.plan, s_api.assign]
+
+    def body(self, ch, params):
+        from cascade.controller.report import Reporter
+        from cascade.executor.msg import DatasetPublished
+
+        with ch.untraced():
+            FALSY["on"] = False
+            # t0 feeds t1 and t2 (the second consumer lands on another worker than the producer: a prepared input); t3 is on its own
+            fixed = {(i, j): 0 for i in range(4) for j in range(i + 1, 4)}
+            fixed.update({(0, 1): 1, (0, 2): 1})
+            job, spec = build_job(ch, 4, [0, 0, 0, 0], False, fixed, with_ext=False)
+            sim = sim_cluster.SimCluster(job, HOST_SHAPES[params["hosts"]], ch, 0, set(), ch.untraced)
+            state = s_api.initialize(sim.env, s_graph.precompute(job), set())
+            rep = Reporter(None)
+            running: dict = {}
+            for r in range(params["rounds"]):
+                try:
+                    assignments = list(s_api.assign(state, job, sim.env))
+                    state = s_api.plan(state, assignments)
+                except Exception as e:
+                    raise Violation(f"scheduling-round-raised-{type(e).__name__}", f"round {r}: {e}")
+                for a in assignments:
+                    for t in a.tasks:
+                        running[t] = a.worker
+                if r < params["rounds"] - 1 and running:
+                    # one of the running tasks completes (solver's choice) and is reported
+                    t = ch.choose(sorted(running), f"completes{r}")
+                    w = running.pop(t)
+                    state = c_notify.notify(state, job, [DatasetPublished(origin=w, ds=DatasetId(t, "0"), transmit_idx=None)], rep)
+            comp = state.ts2component["t1"]
+            host = ch.choose(sorted(sim.stores), "migrating_host")
+            assigned_before = any(state.ts2worker.get(t) for t in state.components[comp].worker2task_values)
+            ch.note("case", {"hosts": params["hosts"], "rounds": params["rounds"], "host": host, "running": {t: repr(w) for t, w in running.items()}})
+            ch.note("nontrivial", bool(assigned_before))
+            try:
+                state = s_assign.migrate_to_component(host, comp, state)
+            except Exception as e:
+                raise Violation(f"migration-raised-{type(e).__name__}", f"{host} -> component of t1 after {params['rounds']} round(s): {e}")
+            c = state.components[comp]
+            for w in state.host2workers[host]:
+                if w not in c.worker2task_distance:
+                    raise Violation("migrated-worker-has-no-distances", repr(w))
+
+
+register(MigrateStep())
